@@ -107,6 +107,13 @@ func genCluster(seed uint64, tier, variant string) any {
 	p.Opt.KeepAliveMs, p.Opt.WriteTimeoutMs, p.Opt.DialTimeoutMs = 3600_000, 10_000, 2000
 	p.Opt.Multiplex = pick(r, -1, -1, 1)
 	p.Opt.PoolSize = 2
+	// determinism (each found by the self-test, see DESIGN.md 15.2): no MaxFlushDelay (the writer's decision to wait reads
+	// a counter other goroutines change while the pipe switches to its background writer); queues of at least 16 slots
+	// (a full queue makes the clean-up loop of a dead pipe, its writer and the putters contend for slot locks)
+	p.Opt.MaxFlushDelayUs = 0
+	if p.Opt.RingScale < 4 {
+		p.Opt.RingScale = 4
+	}
 	p.X = map[string]any{}
 	cl := &p.Cl
 	mode := variant
@@ -408,6 +415,10 @@ func genCluster(seed uint64, tier, variant string) any {
 			g := GhostSpec{MinStep: r.IntN(120)}
 			switch pick(r, "move", "move", "migrate", "migrate", "failover", "down", "freeze-move", "loading", "new-shard") {
 			case "new-shard":
+				// (a fifth connection: the refresh candidates must then come from the ordered InitAddress list)
+				if total >= 4 {
+					cl.PreferInit = true
+				}
 				p.Ghosts = append(p.Ghosts, GhostSpec{Kind: "new-shard", MinStep: g.MinStep, Argv: []string{strconv.Itoa(k.slot)}})
 				p.Ghosts = append(p.Ghosts, GhostSpec{Kind: pick(r, "migrate-finish", "migrate-cancel"), MinStep: g.MinStep + 30 + r.IntN(120), Argv: []string{strconv.Itoa(k.slot)}})
 			case "move":
@@ -811,6 +822,8 @@ func execCluster(t *testing.T, plan any, out *Outcome) {
 			ce = &clusterEnv{env: e, cp: cp}
 			muxRegReset(16)
 			richIdent.Store(true)
+			enableSpinSettle(e.sim)
+			e.sim.Cfg.TickEpsilon = time.Nanosecond // a scheduler tick never ends exactly on a client timer's instant
 			ce.build()
 		},
 		newClient: func(e *env, i int) (Client, error) { return NewClient(ce.clientOption()) },
